@@ -85,7 +85,10 @@ class Gen:
             choices += ["ns", "ns", "ns_anon", "ns_nested", "ns_inline", "extern"]
         k = rng.choice(choices)
         if k.startswith("ns"):
-            head = {"ns": "namespace n%d {" % n, "ns_anon": "namespace {", "ns_nested": "namespace a%d::b%d {" % (n, n),
+            # names come from a small pool so that namespaces are re-opened, also through a::b forms
+            pool1 = ["n1", "n2", "n3", "n%d" % n]
+            pooln = ["n1::n2", "n1::m", "n2::n1::k", "n1::n2::n3", "a%d::b%d" % (n, n), "n3::n%d" % n]
+            head = {"ns": "namespace %s {" % rng.choice(pool1), "ns_anon": "namespace {", "ns_nested": "namespace %s {" % rng.choice(pooln),
                     "ns_inline": "inline namespace i%d {" % n}[k]
             line = self.emit(head)
             self.events.append(("open", KIND["ns"], 0, line))
